@@ -1,6 +1,6 @@
 (* C03 -- Safe modes confine output (partial: see MANIFEST level text).  Property theorems only. *)
-From Rimu Require Import Base Regex RegexParse Str Types Tables Guards State Inline Block
-  Frame FrameBlock FrameInst OptionsLemmas MiscLemmas.
+From Rimu Require Import Base Unicode Regex RegexAnalysis RegexParse Str Types Tables Guards State Inline Block
+  Frame FrameBlock FrameInst OptionsLemmas MiscLemmas MoreLemmas Plain TableFacts.
 
 (* escaped text contains no raw < or >, and every & starts one of the three entities *)
 Theorem C03_escape_confined : forall s, ~ In 60 (escape s) /\ ~ In 62 (escape s).
@@ -33,6 +33,19 @@ Theorem C03_definitions_fixed : forall n src s html s',
   s_mode s <> 0%Z -> doc_render n src s = Ok (html, s') -> protected s' = protected s.
 Proof. exact doc_render_protected. Qed.
 Print Assumptions C03_definitions_fixed.
+
+(* every delimited block that can carry source text has the specials fall-back, except the macro definition
+   (renders nothing) and the HTML block (handled by the policy) *)
+Theorem C03_blocks_escape_or_filter :
+  forallb (fun d => truthy (e_specials (d_expand d)) || mem (d_name d) [$"macro-definition"; $"html"]) dblocks_default = true.
+Proof. exact blocks_escape_or_filter. Qed.
+Print Assumptions C03_blocks_escape_or_filter.
+
+(* running text over the plain alphabet is emitted escaped and nothing else *)
+Theorem C03_plain_text_escaped : forall n s t,
+  defaults s -> plain_text t -> spans_render (S (S (S n))) s t = iret (escape t).
+Proof. exact spans_render_plain. Qed.
+Print Assumptions C03_plain_text_escaped.
 
 Example C03_ex : escape $"a<b>&c" = $"a&lt;b&gt;&amp;c".
 Proof. vm_compute. reflexivity. Qed.
